@@ -9,14 +9,15 @@ ID = "C29"
 LEVEL = "exploration"
 RULE = ("generated finite schedules on VirtualTimeScheduler(float), TestScheduler and HistoricalScheduler(datetime): batches of 0..400 actions "
         "sharing one due time (crossing the 100-action spin threshold several times), actions that re-schedule themselves at 'now' a bounded "
-        "number of times, cancellations; run with start() or advance_to()/advance_by(); the scheduler's threading.Lock is an instrumented lock "
+        "number of times, a recursion that returns the handle of its follow-up and ends by disposing its own chain from inside its k-th run, cancellations; run with start() or advance_to()/advance_by(); the scheduler's threading.Lock is an instrumented lock "
         "(self re-acquisition raises instead of hanging) and every source line of virtualtimescheduler.py counts against a logical step budget "
         "(60 x actions + 3000); verdict: run returns, actions run == scheduled - cancelled, drained scheduler can be started again; "
         "non-trivial = at least one action; distinct = digest of the program")
 ASSUMPTIONS = ["the instrumented Lock stands in for threading.Lock (a native self-deadlock would otherwise be invisible to a logical budget)",
                "a wall-clock watchdog around the child process is inconclusive, never a violation"]
 REQUIRED = {"batches_over_100": {"quick": 40, "thorough": 1000}, "clock_bumps_seen": {"quick": 20, "thorough": 500},
-            "datetime_clock_cases": {"quick": 100, "thorough": 3000}, "restarts_checked": {"quick": 200, "thorough": 8000}}
+            "datetime_clock_cases": {"quick": 100, "thorough": 3000}, "restarts_checked": {"quick": 200, "thorough": 8000},
+            "self_cancelling_recursions": {"quick": 200, "thorough": 8000}}
 CASES = {"quick": 640, "thorough": 24000}
 UNIT_TIMEOUT = {"quick": 240, "thorough": 3000}
 FILES = ("scheduler/virtualtimescheduler.py",)
@@ -32,8 +33,11 @@ def gen_program(r: Any) -> dict:
         size = r.choice([0, 1, 3, 50, 99, 100, 101, 102, 150, 201, 305, 400]) if r.random() < 0.6 else r.randint(0, 30)
         batches.append({"at": t, "n": size, "resched": r.choice([0, 0, 1, 3]) if size <= 150 else 0,
                         "cancel_every": r.choice([0, 0, 0, 2, 7])})
+    # a recursion that is bounded by CANCELLATION instead of a counter: the action returns the handle of its follow-up and, at its
+    # k-th run, disposes the handle of the whole chain from inside itself
+    selfcancel = r.choice([0, 0, 1, 3, 40, 150])
     return {"kind": kind, "batches": batches, "run": r.choice(["start", "start", "advance_to", "advance_by"]),
-            "via": r.choice(["absolute", "relative"])}
+            "via": r.choice(["absolute", "relative"]), "selfcancel": selfcancel, "selfcancel_at": r.choice([0, 1, 5])}
 
 
 def scenario(c: Any, P: dict) -> dict:
@@ -76,6 +80,19 @@ def scenario(c: Any, P: dict) -> dict:
                 d.dispose()
             else:
                 expected += 1 + b["resched"]
+    if P.get("selfcancel"):
+        K = P["selfcancel"]
+        steps = [0]
+        root: list = [None]
+
+        def rec(sch: Any, st: Any) -> Any:
+            steps[0] += 1
+            ran[0] += 1
+            if steps[0] == K:
+                root[0].dispose()
+            return sch.schedule(rec)
+        root[0] = s.schedule_absolute(to_abs(P["selfcancel_at"]), rec)
+        expected += K
     horizon = max([b["at"] for b in P["batches"]] + [0]) + 1000
     if P["run"] == "start":
         s.start()
@@ -99,12 +116,14 @@ def run_case(seed: int, idx: int, res: UnitResult) -> None:
     from .. import dsched as D
     r = case_rng(seed, ID, idx)
     P = gen_program(r)
-    total = sum(b["n"] * (1 + b["resched"]) for b in P["batches"])
+    total = sum(b["n"] * (1 + b["resched"]) for b in P["batches"]) + P.get("selfcancel", 0)
     c = D.run(lambda c: scenario(c, P), D.ForcedStrategy({}), max_steps=60 * total + 3000)
     big = sum(1 for b in P["batches"] if b["n"] > 100)
     res.case(key=P, nontrivial=total > 0, sample={"program": P, "result": {k: v for k, v in (c.result or {}).items() if k != "viol"} if c.result else c.failed})
     res.count("batches_over_100", big)
     res.count("actions_scheduled", total)
+    if P.get("selfcancel"):
+        res.count("self_cancelling_recursions")
     res.note("kinds", P["kind"] + "/" + P["run"])
     if P["kind"] == "hist":
         res.count("datetime_clock_cases")
